@@ -1310,6 +1310,30 @@ class Engine:
         return SList(st.zh["L_n"][l.id], st.zh["L_e"][l.id], l.mk)
 
     # ---------- comprehensions
+    def e_DictComp(self, e, st):
+        """{k(x): v(x) for x in <concrete list>}: the entries one by one, in order (a Python dict with concrete keys)"""
+        if len(e.generators) != 1 or e.generators[0].ifs or not isinstance(e.generators[0].target, ast.Name):
+            raise Unsupported("dict comprehension shape")
+        g = e.generators[0]
+        for tag, it, st2 in self.expr(g.iter, st):
+            if tag == "raise":
+                yield (tag, it, st2); continue
+            if not isinstance(it, (list, tuple)):
+                raise Unsupported("dict comprehension over a symbolic iterable")
+            saved = st2.env
+            def build(items, acc, st3):
+                if not items:
+                    yield ("val", dict(acc), st3.with_env(saved)); return
+                st4 = st3.bind(g.target.id, items[0])
+                for tag2, kv, st5 in self.seq([e.key, e.value], st4):
+                    if tag2 == "raise":
+                        yield (tag2, kv, st5.with_env(saved)); continue
+                    kc = conc(kv[0])
+                    if kc is NotConcrete:
+                        raise Unsupported("dict comprehension with a symbolic key")
+                    yield from build(items[1:], acc + [(kc, kv[1])], st5)
+            yield from build(list(it), [], st2)
+
     def e_ListComp(self, e, st):
         if len(e.generators) != 1:
             raise Unsupported("nested comprehension")
